@@ -573,8 +573,8 @@ def rule_K3_K4(ctx):
               f'writer uses {s1}, reader {s2}', ctx.where(io, ser),
               sample={'writer': s1, 'reader': s2})
     fl, un = io.func('_dict_flatten'), io.func('_dict_unflatten')
-    f1 = [s for s in string_consts(fl) if len(s) == 1]
-    f2 = [s for s in string_consts(un) if len(s) == 1]
+    f1 = [s for f in io.scope(fl) for s in string_consts(f) if len(s) == 1]
+    f2 = [s for f in io.scope(un) for s in string_consts(f) if len(s) == 1]
     ctx.check('C17.K3.sentinel', 'npz key separator', f1 == f2 == ['>'],
               f'flatten joins with {f1}, unflatten splits at {f2}',
               ctx.where(io, fl), sample={'writer': f1, 'reader': f2})
@@ -642,6 +642,39 @@ def h5_order(ctx, rule):
                   'dictionaries are reloaded in alphabetical, not insertion '
                   'order (survey dictionaries no longer match the data axes)',
                   ctx.where(io, c))
+    # the same for JSON (sort_keys) and for any writer / reader helper that
+    # sorts the items of a dictionary
+    sv = io.func('save')
+    dumps = [c for c in ast.walk(sv) if isinstance(c, ast.Call) and
+             ast.unparse(c.func) in ('json.dump', 'json.dumps')]
+    ctx.anchor(len(dumps) >= 1, 'json.dump in save')
+    for c in dumps:
+        kws = {k.arg: ast.unparse(k.value) for k in c.keywords}
+        ctx.check(rule, f'save `{ast.unparse(c.func)}` keeps the key order',
+                  kws.get('sort_keys', 'False') == 'False' and
+                  None not in kws,
+                  'JSON is written with sort_keys (or with options the '
+                  'analysis cannot see): dictionaries are reloaded in '
+                  'alphabetical order, the names of sources / receivers / '
+                  'frequencies no longer match the data axes',
+                  ctx.where(io, c))
+    for name in ('save', 'load', '_dict_serialize', '_dict_deserialize',
+                 '_dict_flatten', '_dict_unflatten', '_dict_dearray_decomp',
+                 '_dict_array_comp', '_hdf5_dump', '_hdf5_load',
+                 '_nonetype_to_none'):
+        f0 = io.func(name)
+        for f in io.scope(f0):
+            srt = [c for c in ast.walk(f) if isinstance(c, ast.Call) and (
+                ast.unparse(c.func) == 'sorted' or (
+                    isinstance(c.func, ast.Attribute) and
+                    c.func.attr == 'sort')) and any(
+                        isinstance(x, ast.Attribute) and x.attr in (
+                            'items', 'keys') for x in ast.walk(c))]
+            ctx.check(rule, f'{f.name}: dictionaries are walked in their own '
+                      'order', not srt, 'the items of a dictionary are '
+                      'sorted on the way to / from the file: the order of '
+                      'the survey dictionaries (= the data axes) is lost',
+                      ctx.where(io, srt[0] if srt else f))
 
 
 def rule_oneshot(ctx):
